@@ -2006,6 +2006,27 @@ static int32 parseSSLHandshake(ssl_t *ssl, char *inbuf, uint32 len)
             c = ssl->fragMessage + ssl->hshakeHeadLen;
             end = ssl->fragMessage + ssl->fragTotal;
             hsLen = ssl->fragTotal - ssl->hshakeHeadLen;
+            /* hsMsgHash is a local: the snapshot taken when the first
+               fragment arrived is gone. The reassembled message has not
+               been hashed yet, so take it again here. */
+            if (ssl->hsState == SSL_HS_FINISHED)
+            {
+                if (sslSnapshotHSHash(ssl, hsMsgHash, PS_FALSE, PS_TRUE) <= 0)
+                {
+                    ssl->err = SSL_ALERT_INTERNAL_ERROR;
+                    return MATRIXSSL_ERROR;
+                }
+            }
+# ifdef USE_CLIENT_AUTH
+            if (ssl->hsState == SSL_HS_CERTIFICATE_VERIFY)
+            {
+                if (sslSnapshotHSHash(ssl, hsMsgHash, PS_FALSE, PS_FALSE) <= 0)
+                {
+                    ssl->err = SSL_ALERT_INTERNAL_ERROR;
+                    return MATRIXSSL_ERROR;
+                }
+            }
+# endif /* USE_CLIENT_AUTH */
             goto SKIP_HSHEADER_PARSE;
         }
         else
